@@ -194,6 +194,40 @@ func uniFlatNS(maxKids int) []*doc.Tree {
 	return out
 }
 
+// uniMixedWS: one parent with 1..maxKids children over {element a, text " ",
+// text "x", text "\n  ", comment ""}: mixed content as a pretty-printed
+// document has it.
+func uniMixedWS(maxKids int) []*doc.Tree {
+	key := fmt.Sprintf("MixedWS%d", maxKids)
+	uniMu.Lock()
+	if t, ok := uniCache[key]; ok {
+		uniMu.Unlock()
+		return t
+	}
+	uniMu.Unlock()
+	kinds := []doc.Spec{{K: "e", N: "a"}, {K: "t", V: " "}, {K: "t", V: "x"}, {K: "t", V: "\n  "}, {K: "c", V: ""}}
+	var out []*doc.Tree
+	for n := 1; n <= maxKids; n++ {
+		total := 1
+		for i := 0; i < n; i++ {
+			total *= len(kinds)
+		}
+		for code := 0; code < total; code++ {
+			c := code
+			var kids []doc.Spec
+			for i := 0; i < n; i++ {
+				kids = append(kids, kinds[c%len(kinds)])
+				c /= len(kinds)
+			}
+			out = append(out, doc.Build([]doc.Spec{{K: "e", N: "b", C: kids}}))
+		}
+	}
+	uniMu.Lock()
+	uniCache[key] = out
+	uniMu.Unlock()
+	return out
+}
+
 func uniTExact(n int) []*doc.Tree {
 	return trees(fmt.Sprintf("TE%d", n), &doc.Universe{MinN: n, MaxN: n, Names: []string{"a", "b"},
 		Attr: "rule", AttrNames: []string{"a", "x"}, Vals: []string{"1", "2", "x", ""}})
